@@ -205,7 +205,8 @@ inductive JsonIn where
 /-- a `driver.Value` handed to Scan -/
 inductive SqlIn where
   | bytes (s : Name)   -- []byte
-  | other              -- string, int64, float64, bool, time.Time, nil
+  | str (s : Name)     -- string: what the enum's own Value() produces (and what several drivers hand back for text columns)
+  | other              -- int64, float64, bool, time.Time, nil
   deriving DecidableEq, Repr
 
 inductive DecErr where
@@ -231,6 +232,7 @@ def unmarshalText (vm : List (Name × Int)) (s : Name) (target : Int) : Dec := p
 def scan (vm : List (Name × Int)) (d : SqlIn) (target : Int) : Dec :=
   match d with
   | .other => (some .badType, target)
+  | .str _ => (some .badType, target)       -- `data, ok := value.([]byte); if !ok { return errors.New("bad enum type") }`
   | .bytes s => parseInto vm s target
 
 /-- what the three encoders put on the wire: the text of `String()` (as a JSON string, as bytes,
